@@ -20,7 +20,7 @@ META = {
     "engine": "LinkDest",
     "technique": "TLA+ reference (documents built from self-delimiting blocks whose link-destination spans are known by construction; RFC 3986-style Rewrite; CommonMark backslash unescape) + implementation-shaped model of the line scanner of cmd/scriggo/linkdestination.go and of mdescape.go, model-checked by TLC over every block sequence; every document replayed into the real linkDestinationReplacer.replace (once and twice) through a -tags verif test file in cmd/scriggo; outputs judged by a TLC Trace spec",
     "level": "model_checking",
-    "level_text": "TLC explores every document made of <=2 blocks over all 52 block kinds and <=3 (quick) / <=4 (thorough) blocks over the 16 core kinds (inline links in 8 spellings, reference definitions, images, headings/list items/block quotes, code spans, backquote and tilde fences with longer closing fence / shorter fence inside / info string, indented code, HTML blocks / raw-text elements with upper-case end tag / <pre> / comments, absolute / mailto / fragment / query / dot / extension-less / trailing-slash / root / scheme-relative destinations, plus stress kinds: autolink, unclosed HTML, multi-line code span and link text, fence in a block quote, 4-space nested list, unbalanced backquote) and checks that the transcribed scanner (inFence, htmlState stack/rawTag/rawCloser, codeSpanLen, link-stack depth) rewrites exactly the ground-truth spans and that its Rewrite meets the RFC 3986-style reference; TLC exports the same documents with their spans; the real replace() is run on each document (and on its own output) and the TLA+ Trace spec decides: bytes outside real destinations unchanged, code/HTML/non-link destinations untouched, absolute/fragment/query destinations kept, every relative destination rewritten to a URL under the base, idempotent; markdownUnescape(markdownURLEscape(u)) = u for every string of <=3/<=5 bytes over a 9-symbol punctuation alphabet.",
+    "level_text": "TLC explores every document made of <=2 blocks over all 55 block kinds and <=3 (quick) / <=4 (thorough) blocks over the 16 core kinds (inline links in 8 spellings, reference definitions, images, headings/list items/block quotes, code spans, backquote and tilde fences with longer closing fence / shorter fence inside / info string, indented code, HTML blocks / raw-text elements with upper-case end tag / <pre> / comments, absolute / mailto / fragment / query / dot / extension-less / trailing-slash / root / scheme-relative destinations, plus stress kinds: autolink, unclosed HTML, multi-line code span and link text, fence in a block quote, 4-space nested list, unbalanced backquote) and checks that the transcribed scanner (inFence, htmlState stack/rawTag/rawCloser, codeSpanLen, link-stack depth) rewrites exactly the ground-truth spans and that its Rewrite meets the RFC 3986-style reference; TLC exports the same documents with their spans; the real replace() is run on each document (and on its own output) and the TLA+ Trace spec decides: bytes outside real destinations unchanged, code/HTML/non-link destinations untouched, absolute/fragment/query destinations kept, every relative destination rewritten to a URL under the base, idempotent; markdownUnescape(markdownURLEscape(u)) = u for every string of <=3/<=5 bytes over a 9-symbol punctuation alphabet.",
     "level_note": "Trusted: TLC, the Json module, the ~200-line Go test file that only calls the functions and logs (goldmark's link destinations are logged only when a violation is being confirmed - oracle guard), python glue that copies files and counts. 'What is a link' is decided by construction for the generated block kinds, not for CommonMark as a whole: container nesting beyond one block quote / one nested list, setext headings, link reference definitions spanning lines, entity references inside destinations, tabs, CRLF and non-ASCII text are not generated. Exact spelling of the rewritten URL (.html -> .md, percent-encoding) is compared with the implementation-shaped model only (model_drift, diagnostic); the property-level clause is 'absolute, under the base'.",
     "design_ref": "7/C29",
 }
@@ -70,6 +70,9 @@ KINDS = [
     ("html_pre", 0, 0, "<pre>\n[f]({html:f^/g.html})\n</pre>"),
     ("html_comment", 1, 0, "<!-- [f]({html:f^/g.html}) -->"),
     ("html_comment_ml", 0, 0, "<!--\n[f]({html:f^/g.html})\n\n[g]({html:f^/h.html})\n-->"),
+    ("html_pi", 0, 0, "<?x [f]({html:f^/g.html}) ?>"),
+    ("html_cdata", 0, 0, "<![CDATA[\n[f]({html:f^/g.html})\n]]>"),
+    ("html_decl", 0, 0, "<!DOCTYPE html>"),
     ("d_abs", 0, 0, "[a]({stay:https://other.org/p^})"),
     ("d_mailto", 0, 0, "[a]({stay:mailto:u^@x.org})"),
     ("d_frag", 1, 0, "[a]({stay:#s^})"),
@@ -369,7 +372,7 @@ def run(ctx, replay_case=None):
         wd = ctx.stage("mc", FAMS)
         invs = ["ModelMeetsRef", "ModelOutputAbsolute"]
         rig.write_cfg(wd / "MC_LinkDest.cfg", constants=K, invariants=invs)
-        r = ctx.tlc(wd, "MC_LinkDest", workers=rig.NCPU, timeout=1500, coverage=not ctx.quick)
+        r = ctx.tlc(wd, "MC_LinkDest", workers=rig.NCPU, timeout=2700, coverage=not ctx.quick)
         ctx.cov.update(states=r.distinct, transitions=r.generated, mc_wall_s=round(r.wall, 1), mc_invariants=invs,
                        bounds=f"documents of <= {K['AllLen']} blocks over all {len(KINDS)} block kinds and <= {K['CoreLen']} blocks over the "
                               f"{sum(1 for k in KINDS if k[1])} core kinds (base https://example.com/base/, dir docs/sub); every single block under 4 base/dir "
